@@ -25,7 +25,7 @@ LEVEL_TEXT = ('The fault-free run of each scenario records its op trace; every o
 LEVEL_NOTE = ('kernel-level torn writes are out of scope; the raw sink models POSIX short writes and errors at the '
               'CPython raw-stream boundary; validated against real /dev/full, closed pipe and read-only directory runs')
 RULE = ('scenarios = {--json, --json -o} x second file in {fine, undecodable, filtered, minimal} and --file x {fine, '
-        'undecodable, filtered, bad header, missing}; x raw-write granularity {64, 1024, unbounded}; deviations = every op '
+        'undecodable, filtered, bad header, missing} (JSON and --hex rendering; block-, line- and 16-byte-buffered stdout); x raw-write granularity {64, 1024, unbounded}; deviations = every op '
         'of the fault-free trace x {ENOSPC, EIO, EPIPE, short write, crash-before, crash-after}; thorough: all ordered pairs '
         'of deviations on the 1 KiB trace. Non-trivial: every deviated run; distinct by (scenario, schedule).')
 ASSUMPTIONS = ['interpreter shutdown is modelled as a final flush of stdout after SystemExit']
@@ -63,6 +63,13 @@ def plan(tier, seed):
                 ch.append({'k': 'single', 'scen': {'mode': mode, 'second': sec, 'K': K}})
         for kind in F_KINDS:
             ch.append({'k': 'single', 'scen': {'mode': 'f', 'second': kind, 'K': K}})
+        # stdout that reaches the device while the tool is still printing (terminal-like line buffering, tiny buffer),
+        # for the JSON and the --hex rendering
+        for kind in ('fine', 'filtered', 'undecodable'):
+            for hexm in (False, True):
+                for so in ('line', 'tiny'):
+                    ch.append({'k': 'single', 'scen': {'mode': 'f', 'second': kind, 'K': K, 'hex': hexm, 'stdout': so}})
+        ch.append({'k': 'single', 'scen': {'mode': 'f', 'second': 'fine', 'K': K, 'hex': True}})
     if tier == 'thorough':
         for mode in ('j', 'jo'):
             for sec in J_SECONDS:
@@ -123,8 +130,9 @@ class Run:
 
         stdout = None
         if mode == 'f':
-            stdout = faultio.make_stdout(world)
-            argv = ['-f', os.path.join(pels, 'p2_input'), '--clean']
+            so = self.scen.get('stdout', 'block')
+            stdout = faultio.make_stdout(world, line_buffering=(so == 'line'), buffer_size=(16 if so == 'tiny' else 8192))
+            argv = ['-f', os.path.join(pels, 'p2_input'), '--clean'] + (['-x'] if self.scen.get('hex') else [])
         elif mode == 'j':
             argv = ['-p', pels, '-j', '--clean']
         else:
